@@ -1,6 +1,6 @@
 PLAN['C17'] = dict(
     level='exploration',
-    units=std_units('C17', [('asan', 'sdcz', 24000, 300000), ('asan-i64', 'sdcz', 8000, 80000)], chunk=500),
+    units=std_units('C17', [('asan', 'sdcz', 36000, 300000), ('asan-i64', 'sdcz', 12000, 80000)], chunk=500),
     rule='?ldperm(job=5) called directly on seeded square CSC matrices: 11 pattern classes (n 1..60, thorough tail to 150) x row relabelling '
          '(none/random/cyclic/reverse -> structurally zero diagonals) x value class (8 generator classes, wide 2^+-480 (2^+-80 single), all-equal magnitudes, '
          'few magnitudes, symmetric, rank-one magnitudes, extreme 2^+-660 double only) x complex shape (general/real/mixed) x explicit zeros x forced Hall violations '
